@@ -375,13 +375,14 @@ func streamOps(c *ctx) {
 	verifyDo := func(impl any, op int, a *opAux) error { return impl.(key.Verifier).Verify(a.data, a.sig) }
 	// signature families: the private key of a public-key case is kept aside to make a valid signature
 	var lastPriv key.Key
+	forceForm := -1 // verify roles: -1 random, 0 private key, 1 public key, 2 public key with a compressed point
 	roles = append(roles,
 		role{coq: "FEdSign", famOps: []int{1, 2}, op: 1, mk: func() (key.Key, oracleVals) { return edKey(c, false) },
 			build: func(k key.Key) (any, error) { return ed25519.NewSigner(k) }, prep: func(k key.Key) *opAux { return &opAux{data: data} }, do: signDo},
 		role{coq: "FEdVerify", famOps: []int{1, 2}, op: 2, mk: func() (key.Key, oracleVals) {
 			k, o := edKey(c, false)
 			lastPriv = cloneKey(k)
-			if c.r.bool() { // public form
+			if forceForm > 0 || forceForm < 0 && c.r.bool() { // public form
 				pk := key.Key{iana.KeyParameterKty: iana.KeyTypeOKP, iana.OKPKeyParameterCrv: iana.EllipticCurveEd25519, iana.OKPKeyParameterX: []byte(o.edPub)}
 				if v, ok := k[iana.KeyParameterAlg]; ok {
 					pk[iana.KeyParameterAlg] = v
@@ -398,11 +399,11 @@ func streamOps(c *ctx) {
 			lastPriv = cloneKey(k)
 			delete(lastPriv, iana.EC2KeyParameterX)
 			delete(lastPriv, iana.EC2KeyParameterY)
-			if c.r.bool() {
+			if forceForm > 0 || forceForm < 0 && c.r.bool() {
 				crv := k[iana.EC2KeyParameterCrv].(int)
 				size := (curveOf(crv).Params().BitSize + 7) / 8
 				pk := key.Key{iana.KeyParameterKty: iana.KeyTypeEC2, iana.EC2KeyParameterCrv: crv, iana.EC2KeyParameterX: o.px.FillBytes(make([]byte, size))}
-				if c.r.intn(3) == 0 {
+				if forceForm == 2 || forceForm < 0 && c.r.intn(3) == 0 {
 					pk[iana.EC2KeyParameterY] = o.py.Bit(0) == 1
 				} else {
 					pk[iana.EC2KeyParameterY] = o.py.FillBytes(make([]byte, size))
@@ -453,6 +454,71 @@ func streamOps(c *ctx) {
 				Observed: "performed", Expected: "refused (the list does not consist solely of the family's operations)", Case: line, Theorem: "C16_history_full_refuted"})
 		}
 		c.nontriv("foreign-after|" + r.coq)
+	}
+
+	// directed histories: an implementation built from an unrestricted (or fully permitted) key, whose key_ops are then
+	// narrowed, widened and removed again: every call follows the list in effect at the call (for a verifier made from a
+	// private key, the derived public key's own list)
+	for _, r := range roles {
+		for form := 0; form <= 2; form++ {
+			for _, withOps := range []bool{false, true} {
+				forceForm = form
+				k, orc := r.mk()
+				forceForm = -1
+				if withOps {
+					k.SetOps(r.famOps...)
+				}
+				aux := r.prep(k)
+				keyTerm := qMap(k)
+				impl, err := r.build(k)
+				if err != nil {
+					continue
+				}
+				_, isPriv := k[iana.EC2KeyParameterD]
+				shared := !((r.coq == "FEdVerify" || r.coq == "FEcVerify") && isPriv)
+				var others []int
+				for _, o := range r.famOps {
+					if o != r.op && !(r.coq == "FEcdh") {
+						others = append(others, o)
+					}
+				}
+				if len(others) == 0 {
+					continue
+				}
+				var steps, outs, human []string
+				allowed := true
+				for _, st := range [][]int{nil, others, nil, {r.op}, nil, others, nil, {}, nil} {
+					if st == nil {
+						var derr error
+						catch(func() { derr = r.do(impl, r.op, aux) })
+						steps = append(steps, fmt.Sprintf("Do %d", r.op))
+						outs = append(outs, qB(derr == nil))
+						human = append(human, fmt.Sprintf("Do(%d)=%v", r.op, derr == nil))
+						c.eval()
+						if (derr == nil) != allowed {
+							c.fail(failure{Op: "key_ops-history", What: "operation outcome does not follow the key_ops in effect at the call",
+								Input:    fmt.Sprintf("fam=%s key=%s history=%s", r.coq, describe(map[any]any(k)), strings.Join(human, ",")),
+								Observed: fmt.Sprintf("performed=%v", derr == nil), Expected: fmt.Sprintf("performed=%v", allowed), Theorem: "C16_history"})
+						}
+						continue
+					}
+					k.SetOps(st...)
+					var zs []string
+					for _, o := range st {
+						zs = append(zs, qZ(int64(o)))
+					}
+					steps = append(steps, "SetOps "+qList(zs))
+					human = append(human, fmt.Sprintf("SetOps%v", st))
+					if shared {
+						allowed = len(st) == 0 || st[0] == r.op
+					}
+				}
+				line := fmt.Sprintf("ops-directed|fam=%s|form=%d|ops=%v|%s", r.coq, form, withOps, strings.Join(human, ","))
+				c.addCase(fmt.Sprintf("OpsCase %s %s %s %s true %s", r.coq, orc.coq(), keyTerm, qList(steps), qList(outs)), line)
+				c.nontriv(fmt.Sprintf("directed|%s|%d|%v", r.coq, form, withOps))
+				c.count("directed history " + r.coq)
+			}
+		}
 	}
 
 	subsetOps := func(mask int) []int {
